@@ -112,6 +112,7 @@ func init() {
 		c01CommitNodes(c)
 		c01ResolveBeforeMerge(c)
 		c01CommitBeforeCommitment(c)
+		c01TracerFullPath(c)
 	})
 }
 
@@ -644,5 +645,37 @@ func c01CommitBeforeCommitment(c *Ctx) {
 	}
 	if n < 1 {
 		c.und("commit-before-commitment", "core/state.State.commit", "", "no stateObject.commitment call found in commit")
+	}
+}
+
+// c01TracerFullPath: the node tracer records node *paths*. Inside the recursive walkers the path of the node at hand is
+// `prefix` (possibly extended); the remaining `key` alone is not a path. Every onInsert/onDelete argument is therefore
+// derived from the walker's prefix parameter. (With the remaining key — empty at a leaf — the deleted leaf is never removed
+// from disk and the flat head reader keeps serving it: F18.)
+func c01TracerFullPath(c *Ctx) {
+	p := c.P
+	n := 0
+	for _, fn := range p.sortedFuncs() {
+		if pkgRelOf(fn) != "core/trie2" || fn.Origin() != nil || fn.Signature.Recv() == nil || recvName(fn.Signature.Recv().Type()) != "Trie" || strings.HasSuffix(p.Pos(fnPos(fn)), "_test.go") {
+			continue
+		}
+		var prefix *ssa.Parameter
+		for _, par := range fn.Params {
+			if baseParamName(par) == "prefix" {
+				prefix = par
+			}
+		}
+		for _, s := range sitesOf(fn) {
+			if s.Callee == nil || (s.Callee.Name() != "onInsert" && s.Callee.Name() != "onDelete") {
+				continue
+			}
+			n++
+			arg := s.Args()[len(s.Args())-1]
+			ok := prefix != nil && (arg == ssa.Value(prefix) || strings.Contains(termF(arg), "prefix"))
+			c.check(ok, "tracer-full-path", fmt.Sprintf("%s → %s #%d", qname(fn), s.Callee.Name(), n), p.Pos(s.Pos()), "the recorded path is derived from the walker's prefix", "the node tracer is given "+shortTerm(arg)+", which is not derived from the walker's prefix (the remaining key is not a node path): the node is never removed from / written to the database under its real path")
+		}
+	}
+	if n < 6 {
+		c.und("tracer-full-path", "trie2 walkers", "", fmt.Sprintf("only %d tracer calls found", n))
 	}
 }
